@@ -255,6 +255,24 @@ class Spec:
                 self.status = "aborted"
 
 
+def clock_ok(ops):
+    """the store stamp never goes back (and not to None) once it is numeric"""
+    cur = None
+    for o in ops:
+        w = o.split(" ")
+        if w[0] == "stamp":
+            if w[1] == "none":
+                if cur is not None:
+                    return False
+            else:
+                if cur is not None and int(w[1]) < cur:
+                    return False
+                cur = int(w[1])
+        elif w[0] == "adv" and cur is not None:
+            cur += int(w[1])
+    return True
+
+
 def proto_ok(ops):
     """the controls follow the runner protocol: RUN only while started/running, STOP while started/running/stopped"""
     st = "stopped"
@@ -449,8 +467,8 @@ class CHECK(core.Check):
         spec = Spec(case)
         for line in case["ops"]:
             spec.op(line)
-        if not spec.numeric:
-            return []
+        if not spec.numeric or not clock_ok(case["ops"]):
+            return []        # None or decreasing store stamp: outside the environment the property assumes
         fails = []
         for i, log in enumerate(spec.logs):
             cfg = log["cfg"]
